@@ -30,6 +30,7 @@ import SharkVerif.Lemmas.McObjective
 import SharkVerif.Lemmas.McSolve
 import SharkVerif.Lemmas.McSimplex
 import SharkVerif.Lemmas.McLinearMc
+import SharkVerif.Lemmas.McBias
 namespace SharkVerif.C16
 open SharkVerif.Mc SharkVerif.Gen.McTables SharkVerif.McTables
 
@@ -503,5 +504,31 @@ theorem mc_linear_invariants (F : McForm) (hF : F.simplex = false) (D : MlData R
 /-- non-vacuity: the five formulations covered -/
 example : ∀ F ∈ [McForm.WW, .LLW, .ATS, .MMR, .RS], F.simplex = false := by
   intro F hF; simp at hF; rcases hF with rfl | rfl | rfl | rfl | rfl <;> rfl
+
+/-! ## 9. The bias loop `BiasSolver::solve` as far as it is logic (Model/McBias.lean) -/
+
+/-- **whatever the Rprop rule decides**: after ANY sequence of inner solves (`QpSolver::solve`, any accuracy and
+iteration limit) and bias steps (`performBiasUpdate(step, nu)`, any step) on the problem of any family and class
+count, all invariants of the decomposition state hold and the linear part of the dual — read through the
+example/variable tables, which shrinking has renumbered — is the trainer's `linear(i,p)` shifted by the ACCUMULATED
+bias `b = Σ steps`:  `lin(i,p) = linear(i,p) − Σ_{entries of nu.row(y_i·P+p)} value · b(index)`.  So every inner
+solve works on the fixed-bias dual of exactly the bias vector the solver reports (`bias += step`). -/
+theorem bias_loop_consistent (f : Family) (c n : Nat) (hc : 2 ≤ c) (C : Rat) (hC : 0 ≤ C)
+    (K : Nat → Nat → Rat) (hK : ∀ i j, K i j = K j i) (labels : Nat → Nat) (hl : ∀ i < n, labels i < c)
+    (linMat : Nat → Nat → Rat) (ops : List BiasOp) :
+    FullInv (biasRun (fun r => (f.nu c).row r) (problem f c n C K labels linMat) ops) ∧
+    LinInv (biasRun (fun r => (f.nu c).row r) (problem f c n C K labels linMat) ops)
+      (fun i p => linMat i p + biasDelta (fun r => (f.nu c).row r) (f.P c) labels (biasSum ops) i p) :=
+  bias_history _ ops _ linMat (invariants_initially f c n hc C hC K hK labels hl linMat)
+    (linInv_init c (f.P c) n C _ K labels linMat)
+
+/-- the bias step enters linearly: `deltaLinear` of a sum of steps is the sum of the `deltaLinear`s -/
+theorem bias_delta_additive (nu : Nat → Row Rat) (P : Nat) (labels : Nat → Nat) (a b : Nat → Rat) (i p : Nat) :
+    biasDelta nu P labels (fun c => a c + b c) i p = biasDelta nu P labels a i p + biasDelta nu P labels b i p :=
+  biasDelta_add nu P labels a b i p
+
+/-- non-vacuity: a history with two solves around a bias step -/
+example : biasSum [.solve 1 10, .update (fun c => if c = 0 then 1 else -1), .solve 1 10] 0 = 1 := by
+  simp [biasSum]
 
 end SharkVerif.C16
